@@ -114,6 +114,23 @@ def scenarios(tier, seed):
                 continue
             out.append(dict(family=f"chowliu/n{n}", mode="cl", names=cols, root=root, hashseed=0, budget_s=100 if tier == "quick" else 900,
                             max_paths=4000 if tier == "quick" else 200000, cost=20 ** (n - 1)))
+    # the public entry point TreeSearch(data, root_node).estimate(...) with the weight computation (sklearn) replaced by the symbolic matrix:
+    # every root including falsy column labels (0, ""), the automatically chosen root, and TAN with every class node
+    for cols in ([2, 0, 1], ["b", "", "a"], ["x", "y", "z"], [1, 3, 0, 2]):
+        n = len(cols)
+        if n == 4 and tier == "quick":
+            roots = [0]
+        else:
+            roots = list(cols) + [None]
+        for root in roots:
+            out.append(dict(family=f"treesearch/estimate/n{n}", mode="cl", via="estimate", names=cols, root=root, hashseed=0,
+                            budget_s=100 if tier == "quick" else 600, max_paths=4000 if tier == "quick" else 100000, cost=20 ** (n - 1)))
+    for cols in ([2, 0, 1, 3], ["c", "", "a", "b"]):
+        for cls in cols[:2] if tier == "quick" else cols:
+            # (an automatically chosen root may coincide with the class node, which TAN rejects by design: explicit roots only)
+            for root in [c for c in cols if c != cls][:2 if tier == "quick" else 3]:
+                out.append(dict(family="treesearch/tan/n4", mode="cl", via="tan", names=cols, root=root, class_node=cls, hashseed=0, budget_s=100,
+                                max_paths=4000, cost=500))
     return out
 
 
@@ -301,20 +318,52 @@ def run_cl(desc, M):
     for i in range(n):
         for j in range(n):
             mat[i, j] = 0 if i == j else M.impl(W[(min(i, j), max(i, j))])
-    dag = TreeSearch._create_tree_and_dag(mat, cols, desc["root"])
-    edges = [(cols.index(u), cols.index(v)) for u, v in dag.edges()]
+    via = desc.get("via")
+    root = desc["root"]
+    cls = desc.get("class_node")
+    if via is None:
+        dag = TreeSearch._create_tree_and_dag(mat, cols, root)
+    else:
+        import pandas as pd
+        data = pd.DataFrame([[0] * n, [1] * n], columns=cols)
+        ts = TreeSearch(data, root_node=root, n_jobs=1)
+        saved = TreeSearch.__dict__["_get_weights"], TreeSearch.__dict__["_get_conditional_weights"]
+        TreeSearch._get_weights = staticmethod(lambda *a, **k: mat.copy())
+        TreeSearch._get_conditional_weights = staticmethod(lambda *a, **k: mat.copy())
+        try:
+            dag = ts.estimate(estimator_type="chow-liu" if via == "estimate" else "tan", class_node=cls, show_progress=False)
+        finally:
+            TreeSearch._get_weights, TreeSearch._get_conditional_weights = saved
+        if root is None:
+            # automatically chosen root: a column with the largest total weight (over the full matrix, as documented)
+            root = ts.root_node
+            M.check(any(root == c for c in cols), "tree search: the chosen root is a data column", detail=repr(root))
+            tot = [sum((mat[i, j] for j in range(n) if j != i), M.const(0) if M.symbolic else 0.0) for i in range(n)]
+            for j in range(n):
+                M.le(tot[j], tot[cols.index(root)], "tree search: the automatically chosen root has the largest total edge weight", detail=f"root {root!r}")
+    M.check(set(dag.nodes()) == set(cols), "chow-liu: all columns present", detail=str(list(dag.nodes())))
+    tree_cols = [c for c in cols if via != "tan" or c != cls]
+    all_edges = [(cols.index(u), cols.index(v)) for u, v in dag.edges()]
+    if via == "tan":
+        ci = cols.index(cls)
+        M.check({(a, b) for a, b in all_edges if a == ci} == {(ci, cols.index(c)) for c in tree_cols} and not any(b == ci for a, b in all_edges),
+                "tan: the class node is a parent of every feature and has no parent", detail=str(all_edges))
+        edges = [(a, b) for a, b in all_edges if a != ci]
+    else:
+        edges = all_edges
+    tidx = [cols.index(c) for c in tree_cols]
     und = nx.Graph(edges)
-    und.add_nodes_from(range(n))
-    M.check(set(dag.nodes()) == set(cols), "chow-liu: all columns present")
-    ok = M.check(len(edges) == n - 1 and nx.is_connected(und), "chow-liu: result is a spanning tree", detail=str(edges))
+    und.add_nodes_from(tidx)
+    ok = M.check(len(edges) == len(tidx) - 1 and nx.is_connected(und), "chow-liu: result is a spanning tree", detail=str(edges))
     if not ok:
         return
-    r = cols.index(desc["root"])
+    r = cols.index(root)
     dist = nx.single_source_shortest_path_length(und, r)
-    M.check(all(dist[u] + 1 == dist[v] for u, v in edges), "chow-liu: every edge points away from the root", detail=str(edges))
+    M.check(all(dist[u] + 1 == dist[v] for u, v in edges), "chow-liu: every edge points away from the root", detail=f"root {root!r} edges {[(cols[a], cols[b]) for a, b in edges]}")
     wt = lambda es: sum((W[(min(a, b), max(a, b))] for a, b in es), M.const(0))  # noqa
     best = wt(edges)
-    for tree in spanning_trees(n):
+    for tree in spanning_trees(len(tidx)):
+        tree = [(tidx[a], tidx[b]) for a, b in tree]
         M.le(wt(tree), best, "chow-liu: maximum-weight spanning tree", detail=f"{edges} vs {tree}")
 
 
